@@ -448,3 +448,11 @@ func bodyCtxs(fn *ssa.Function) []*Ctx {
 	walk(fn, root, 0)
 	return out
 }
+
+// derefType strips one pointer.
+func derefType(t types.Type) types.Type {
+	if p, ok := t.Underlying().(*types.Pointer); ok {
+		return p.Elem()
+	}
+	return t
+}
